@@ -30,8 +30,13 @@ def main():
             vl = [l for l in checks[k]['violation_lines'] if l.strip().startswith('kind=')]
             if vl:
                 how = vl[0].strip().split(' detail=')[0]
-        rows.append((m['id'], m['property'], files, title, ', '.join(caught) or '-', ', '.join(missed) or '-', how,
-                     m.get('strengthened', '')))
+        note = m.get('strengthened', '')
+        if m.get('neutralised_by'):
+            note = 'neutralised by repo fix %s: %s' % (m['neutralised_by']['commit'], m['neutralised_by']['note'])
+            caught, missed = [], []
+        if m.get('rebased'):
+            note = (note + '; ' if note else '') + m['rebased']
+        rows.append((m['id'], m['property'], files, title, ', '.join(caught) or '-', ', '.join(missed) or '-', how, note))
     out = ['# Seeded changes', '',
            'Each directory holds `patch.diff` (apply with `git -C /repo apply`, undo with `git -C /repo checkout -- .`), `demo.py`',
            '(exits 0 on the clean tree, 1 with the change), `notes.md` (the sub-agent\'s description), `meta.json` (confirmation and',
